@@ -21,7 +21,9 @@ RULE = (
     'neighbours, and an "exact-tie" stream of dyadic series (float / int / datetime coordinates) whose slopes are '
     'exactly +-atol, 0, atol/2 or 2..3 atol with no rounding anywhere (the oracle decides exact ties: not a split); '
     'about half of the series carry 0-3 further per-point coordinates (float / int / datetime / string), 0-2 masks, '
-    'variances on the data and an unrelated 0-d coordinate, and every bin is compared in full (value, variance, every '
+    'variances on the data and an unrelated 0-d coordinate (the further coordinates are random, descending, constant, '
+    'few-valued with repeated extremes, noisy or zig-zag along the series, i.e. not ascending inside a plateau; '
+    'collapse_plateaus is run with coord= the dimension coordinate and each of them), and every bin is compared in full (value, variance, every '
     'coordinate, every mask) with the input slice; min_n_points 1..n (+ n+1), int or Variable; a malformed stream of unsorted coordinates. In-phase: '
     'frequencies of either sign, 0, multiples / divisors n and n*(1 +- rtol) with exact ties, reference of either sign and 0. '
     'A case is distinct by its full input bit pattern; it is non-trivial when the slope list contains both a slope within '
@@ -251,12 +253,29 @@ def decorate(rng, c):
     extras = []
     for name in rng.sample(EXTRA_NAMES, rng.randint(0, 3)):
         kind = rng.choice(['float', 'int', 'datetime', 'string'])
+        # shape of a numeric coordinate along the series: it need not be ascending inside a plateau
+        style = rng.choice(['random', 'descending', 'constant', 'few-values', 'noisy-ascending', 'zigzag'])
+        if kind in ('float', 'int', 'datetime'):
+            if style == 'random':
+                raw = [rng.randint(-3, 1000) for _ in range(n)]
+            elif style == 'descending':
+                raw = [5 * (n - i) + rng.choice([0, 0, 1]) for i in range(n)]
+            elif style == 'constant':
+                raw = [rng.randint(-3, 50)] * n
+            elif style == 'few-values':      # repeated extremes inside a plateau
+                pool = rng.sample(range(-3, 40), 3)
+                raw = [rng.choice(pool) for _ in range(n)]
+            elif style == 'noisy-ascending':
+                raw = [3 * i + rng.randint(-5, 5) for i in range(n)]
+            else:
+                raw = [(i % 2) * 10 - i for i in range(n)]
         if kind == 'float':
-            vals = [bits(rng.choice([0.0, -0.0, 1.5, rng.uniform(-180, 180)])) for _ in range(n)]
+            sc_ = rng.choice([1.0, 0.5, 0.1, 1e-3])
+            vals = [bits(rng.choice([0.0, -0.0]) if v == 0 and rng.random() < 0.5 else v * sc_) for v in raw]
         elif kind == 'int':
-            vals = [rng.randint(-3, 1000) for _ in range(n)]
+            vals = list(raw)
         elif kind == 'datetime':
-            vals = [rng.randint(0, 10**9) for _ in range(n)]
+            vals = [10**6 + v for v in raw]
         else:
             vals = [rng.choice(['', 'a', 'open', 'closed', 'x y', 'é']) for _ in range(n)]
         extras.append({'name': name, 'kind': kind, 'values': vals})
@@ -413,7 +432,22 @@ def run_impl(c):
         collapsed = ('ok', vals, ev, list(col.dims), list(edges.dims), cvars, _scalar_coords(col))
     except Exception as e:  # noqa: BLE001
         collapsed = (_err(e),)
-    return ('ok', bins, extra, collapsed, bins_tok, sig)
+    other = {}
+    for e in (c.get('deco') or {}).get('extras', []):
+        try:
+            col = F.collapse_plateaus(r, coord=e['name'])
+            edges = col.coords[e['name']]
+            if e['kind'] == 'float':
+                other[e['name']] = [(bits(a + 0.0), bits(b)) for a, b in edges.values.reshape(-1, 2)]
+            elif e['kind'] in ('int', 'datetime'):
+                other[e['name']] = [(int(a), int(b)) for a, b in edges.values.astype('int64').reshape(-1, 2)]
+            else:
+                other[e['name']] = 'returned'
+            if list(edges.dims) != ['plateau', e['name']]:
+                other[e['name']] = ('dims', list(edges.dims))
+        except Exception as ex:  # noqa: BLE001
+            other[e['name']] = 'err' if e['kind'] == 'string' else _err(ex)
+    return ('ok', bins, extra, collapsed, bins_tok, sig, other)
 
 
 def line_for(c, op='c19.plateaus'):
@@ -426,6 +460,11 @@ def line_for(c, op='c19.plateaus'):
     elif op == 'c19.contents':
         toks, _ = _record_tokens(make_da(c)[0])
         return f"c19.contents {k} {c['minn']} {bits(c['atol'])} {n} " + ' '.join(xs) + ' ' + ' '.join(ys) + ' ' + ' '.join(toks)
+    elif op.startswith('c19.interval:'):
+        e = next(x for x in c['deco']['extras'] if x['name'] == op.split(':', 1)[1])
+        es = e['values'] if e['kind'] == 'float' else [str(int(v)) for v in e['values']]
+        return (f"c19.interval {k} {c['minn']} {bits(c['atol'])} {n} " + ' '.join(xs) + ' ' + ' '.join(ys) + ' '
+                + ('f' if e['kind'] == 'float' else 'i') + ' ' + ' '.join(es))
     elif op == 'c19.collapsem':
         d = c.get('deco') or {}
         vs = d.get('variances') or [bits(0.0)] * n
@@ -439,7 +478,7 @@ def line_for(c, op='c19.plateaus'):
     return head + ' ' + ' '.join(xs) + ' ' + ' '.join(ys)
 
 
-def model_result(c, out, out_contents=None, out_col=None):
+def model_result(c, out, out_contents=None, out_col=None, out_int=None):
     """canonical result from the driver lines, in the same shape as run_impl. For decorated series the bin contents
     come from the model's `binContents` over the opaque per-point records (`c19.contents`) and the collapsed value /
     variance from `collapseMasked`; for plain series from the index ranges."""
@@ -474,7 +513,19 @@ def model_result(c, out, out_contents=None, out_col=None):
     scal = sorted([(d['scalar']['name'], 'i:' + str(d['scalar']['value']))]) if d and d['scalar'] else []
     extra = (['plateau'], list(range(len(bins))), 'Hz', 'float64' if c.get('ydtype', 'float64') == 'float64' else 'int64',
              scal, [])
-    return ('ok', bins, extra, ('ok', vals, ev, ['plateau'], ['plateau', 'time'], cvars, scal), bins_tok, in_sig)
+    other = {}
+    for e in (d or {}).get('extras', []):
+        if e['kind'] == 'string':
+            other[e['name']] = 'err'      # _next_highest has no successor for strings: collapse_plateaus raises
+            continue
+        o = (out_int or {}).get(e['name'], 'missing')
+        if not o.startswith('ok'):
+            other[e['name']] = 'bad:' + o[:60]
+        elif e['kind'] == 'float':
+            other[e['name']] = [(bits(unbits(t.split(':')[0]) + 0.0), t.split(':')[1]) for t in o.split()[1:]]
+        else:
+            other[e['name']] = [(int(t.split(':')[0]), int(t.split(':')[1])) for t in o.split()[1:]]
+    return ('ok', bins, extra, ('ok', vals, ev, ['plateau'], ['plateau', 'time'], cvars, scal), bins_tok, in_sig, other)
 
 
 def _norm_impl(res):
@@ -605,14 +656,23 @@ def correspond(ctx):
     nbase = len(lines)
     lines += [line_for(cases[i], 'c19.contents') for i in deco_idx]
     lines += [line_for(cases[i], 'c19.collapsem') for i in deco_idx]
+    int_idx = [(i, e['name']) for i in deco_idx for e in cases[i]['deco']['extras'] if e['kind'] != 'string']
+    nint = len(lines)
+    lines += [line_for(cases[i], 'c19.interval:' + nm) for i, nm in int_idx]
     outs = _drive(ctx, lines)
     out_contents = {i: outs[nbase + k] for k, i in enumerate(deco_idx)}
     out_col = {i: outs[nbase + len(deco_idx) + k] for k, i in enumerate(deco_idx)}
+    out_int = {}
+    for k, (i, nm) in enumerate(int_idx):
+        out_int.setdefault(i, {})[nm] = outs[nint + k]
     with np.errstate(all='ignore'):
         for ci, (c, out) in enumerate(zip(cases, outs)):
             impl = _norm_impl(run_impl(c))
-            model = model_result(c, out, out_contents.get(ci), out_col.get(ci))
+            model = model_result(c, out, out_contents.get(ci), out_col.get(ci), out_int.get(ci))
             d = c.get('deco')
+            if d is not None and impl[0] == 'ok':
+                for e in d['extras']:
+                    ctx.count(f"collapse-coord:{e['kind']}:" + ('err' if impl[6].get(e['name']) == 'err' else 'ok'))
             if d is not None:
                 ctx.count(f"deco:extras={len(d['extras'])}:masks={len(d['masks'])}:var={int(d['variances'] is not None)}:scalar={int(d['scalar'] is not None)}")
             else:
@@ -837,6 +897,41 @@ def check_plateaus_property(c, impl):
             xv = Fraction(c['x'][k])
             if not (lo_v <= xv < hi_v):
                 probs.append(('C19:collapse-interval', f'point {k} of bin [{i},{j}] lies outside its half-open interval'))
+                break
+    # collapse_plateaus(coord=<any other per-point coordinate>): [min, next(max)) of THAT coordinate over the bin
+    other = impl[6] if len(impl) > 6 else {}
+    for e in (c.get('deco') or {}).get('extras', []):
+        if e['kind'] == 'string':
+            continue    # no successor for strings: not an accepted choice of coord
+        got = other.get(e['name'])
+        if not isinstance(got, list):
+            probs.append(('C19:collapse-error', f"collapse_plateaus(coord={e['name']!r}) failed: {got}"))
+            continue
+        if len(got) != len(ivs):
+            probs.append(('C19:collapse-count', f"collapse_plateaus(coord={e['name']!r}) does not return one interval per plateau"))
+            continue
+        if e['kind'] == 'float':
+            vals = [Fraction(unbits(h)) for h in e['values']]
+        else:
+            vals = [Fraction(int(v)) for v in e['values']]
+        for (i, j), (lo, hi) in zip(ivs, got):
+            pts = vals[i:j + 1]
+            if e['kind'] == 'float':
+                lo_v, hi_v = Fraction(unbits(lo)), Fraction(unbits(hi))
+                nxt = Fraction(float(np.nextafter(float(max(pts)), math.inf)))
+            else:
+                lo_v, hi_v = Fraction(lo), Fraction(hi)
+                nxt = max(pts) + 1
+            bad = next((k for k, xv in enumerate(pts) if not (lo_v <= xv < hi_v)), None)
+            if bad is not None:
+                probs.append(('C19:collapse-interval',
+                              f"coord={e['name']!r}: point {i + bad} of bin [{i},{j}] (value {float(pts[bad])!r}) lies outside "
+                              f'its interval [{float(lo_v)!r}, {float(hi_v)!r})'))
+                break
+            if lo_v != min(pts) or hi_v != nxt:
+                probs.append(('C19:collapse-interval',
+                              f"coord={e['name']!r}: interval of bin [{i},{j}] is [{float(lo_v)!r}, {float(hi_v)!r}), not "
+                              f'[min, next(max)) = [{float(min(pts))!r}, {float(nxt)!r})'))
                 break
     return probs
 
